@@ -296,11 +296,16 @@ def gen_step(rng, lib, last_type, first, opts):
         if rng.random() < 0.3:
             lines.append("")
             lines.append("  indented | pipe")
+        if rng.random() < 0.25:
+            lines.append(rng.choice(["Given a line that looks like a step", "@looks-like-a-tag", "| looks | like | a | table |",
+                                     "Scenario: looks like a header", "# looks like a comment"]))
         step["doc"] = "\n".join(lines)
+        if rng.random() < 0.3:
+            step["doc_quote"] = "'''"
     elif r < opts["p_doc"] + opts["p_table"]:
         nc = rng.randint(1, 3)
         step["table"] = {"headings": ["h%d" % c for c in range(nc)],
-                         "rows": [["c%d%d" % (rr, c) for c in range(nc)]
+                         "rows": [[("c%d|%d" if rng.random() < 0.1 else "c%d%d") % (rr, c) for c in range(nc)]
                                   for rr in range(rng.randint(0, 2))]}
     return step, stype
 
@@ -326,7 +331,8 @@ def hostile_suffix(rng, opts):
 def gen_scenario(rng, lib, sid, opts):
     n = rng.randint(opts["min_steps"], opts["max_steps"])
     return {"kind": "scenario", "id": sid,
-            "name": "sc %s %s%s" % (sid, rng.choice(["alpha", "beta", "gamma"]), hostile_suffix(rng, opts)),
+            "name": "" if rng.random() < 0.03 else
+            "sc %s %s%s" % (sid, rng.choice(["alpha", "beta", "gamma"]), hostile_suffix(rng, opts)),
             "tags": gen_tags(rng, opts["tag_pool"], opts["p_tag"]),
             "steps": gen_steps(rng, lib, n, opts),
             "kwd": rng.choice(["Scenario", "Scenario", "Example"])}
@@ -336,6 +342,8 @@ def gen_outline(rng, lib, sid, opts):
     n = rng.randint(max(1, opts["min_steps"]), opts["max_steps"])
     steps = gen_steps(rng, lib, n, opts)
     cols = ["cx", "cy"][:rng.randint(1, 2)]
+    if rng.random() < 0.15:
+        cols.append("cxy")      # a column name that extends another one
     # put placeholders into some step texts: replace one value token by <col>
     # keeps things simple: a placeholder replaces the *whole* text of an
     # undefined step or is appended to a doc-string / table cell
@@ -355,6 +363,8 @@ def gen_outline(rng, lib, sid, opts):
         if rng.random() < 0.3:
             ecols.reverse()
         nrows = rng.choice([0, 1, 1, 2, 2, 3]) if opts.get("empty_examples", True) else rng.randint(1, 3)
+        if rng.random() < 0.04:
+            nrows = rng.randint(10, 12)     # two-digit row ids
         rows = [[rng.choice(["v%d" % rng.randint(0, 9), "", u"ü%d" % rng.randint(0, 9), "cx", "w w"])
                  for _ in ecols] for _ in range(nrows)]
         examples.append({"name": rng.choice(["", "ex%d" % e]),
@@ -444,7 +454,7 @@ def gen_feature(rng, lib, fi, opts):
 # ---------------------------------------------------------------------------
 def render_table(lines, indent, headings, rows, rng=None, p_gap=0.0):
     def esc(c):
-        return c.replace("\\", "\\\\").replace("|", "\\|")
+        return c.replace("|", "\\|")      # (behave un-escapes pipes only)
     lines.append(indent + "| " + " | ".join(esc(h) for h in headings) + " |")
     out = []
     for row in rows:
@@ -461,7 +471,7 @@ def render_steps(lines, steps, indent, rng, linemap, owner):
         lines.append(indent + "%s %s" % (st["kw"], st["text"]))
         linemap["%s#%d" % (owner, i)] = len(lines)
         if st.get("doc") is not None:
-            q = '"""'
+            q = st.get("doc_quote") or '"""'
             lines.append(indent + "  " + q)
             for dl in st["doc"].split("\n"):
                 lines.append((indent + "  " + dl) if dl else "")
@@ -752,6 +762,9 @@ def gen_actions(rng, world, dims, where):
             acts.append({"a": "print", "stream": "stdout"})
         if rng.random() < 0.3:
             acts.append({"a": "print", "stream": "stderr"})
+        for a in acts:
+            if a["a"] == "print" and rng.random() < 0.15:
+                a["eol"] = rng.choice(["", "\r\n", "\n\n"])
         if dims["hostile"]:
             for a in acts:
                 if a["a"] == "print" and rng.random() < 0.5:
@@ -923,14 +936,14 @@ def gen_config(rng, world, dims):
             cfg["tag_args"] = [render_tagexpr(ast, at=rng.random() < 0.5)]
             cfg["tags_protocol"] = rng.choice([None, None, "v2", "auto_detect"])
     if dims["namesel"]:
-        names = [s["name"] if s.get("name") else s["name_core"]
+        names = [s["name"] if "name" in s else s["name_core"]
                  for f, r, o, s in walk_scenarios(world)]
         pats = []
         for _ in range(rng.randint(1, 2)):
             r = rng.random()
             if names and r < 0.4:
                 import re as _re
-                pats.append(_re.escape(rng.choice(names)))
+                pats.append(_re.escape(rng.choice(names)) or "alpha")
             elif r < 0.7:
                 pats.append(rng.choice(["alpha", "beta", "gamma", "S0", "S1", "O1", "R0"]))
             else:
